@@ -19,7 +19,47 @@ const STUB: [&str; 4] = [
 ];
 
 pub fn all() -> Vec<Property> {
-    vec![c01(), c02(), c07(), c08(), c09(), c10(), c11(), c12(), c13()]
+    vec![c01(), c02(), c07(), c08(), c09(), c10(), c11(), c12(), c13(), c17()]
+}
+
+fn c17() -> Property {
+    Property {
+        id: "C17",
+        level: "exploration",
+        variants: vec![
+            Variant {
+                name: "channel-max-pair",
+                weight: 1,
+                make: || Box::pin(scen::c17::run_channel_max()),
+                max_steps: 3_000_000,
+                note: "real client <-> real listener with seeded channel-max on both sides",
+            },
+            Variant {
+                name: "heartbeat-vs-scripted-peer",
+                weight: 2,
+                make: || Box::pin(scen::c17::run_heartbeat()),
+                max_steps: 3_000_000,
+                note: "real client / listener <-> scripted peer advertising an idle time-out; virtual time",
+            },
+            Variant {
+                name: "local-idle-time-out-vs-scripted-peer",
+                weight: 2,
+                make: || Box::pin(scen::c17::run_local_idle()),
+                max_steps: 3_000_000,
+                note: "real client / listener with its own idle time-out <-> scripted peer producing gaps below T, then silence",
+            },
+        ],
+        quick_runs: 10_000,
+        thorough_runs: 500_000,
+        rule: "one run = (a) a pair of channel-max values from {0,1,2,7,255,65535} and a number of begin attempts that goes beyond the limit when it is small, an end at the limit and a further begin; or (b) a peer idle-time-out from {unset,0,1,50,333,1000,60000,2^32-1} ms observed over 8-38 periods of virtual time with or without application traffic; or (c) a local idle time-out T from {100,400,1000,60000} ms, 2-9 peer frames separated by gaps of T/8..7T/8 (optionally a last gap of T-delta) and then silence; all under seeded schedules and stream fragmentation; every run is non-trivial; distinct = distinct event-log hash",
+        assumptions: vec![
+            "gaps between frames are measured at the transport tap with virtual time stamps; a gap equal to the advertised value (+2 ms for writing the frame) is accepted: the heartbeat period equals the advertised value",
+            "silence of exactly T is never generated (timer-versus-data order at one virtual instant is legitimately schedule-dependent)",
+        ],
+        real_components: REAL.to_vec(),
+        stub_components: STUB.to_vec(),
+        expected_probes: vec!["begin-refused-at-channel-max", "channel-reused-after-end", "heartbeat-gaps-checked", "no-idle-time-out-advertised", "frames-arrived-in-time", "idle-time-out-reported"],
+    }
 }
 
 fn c13() -> Property {
